@@ -39,9 +39,10 @@ def strategy(tier):
                     st.integers(0, 4), st.sampled_from([0.0, 0.0, 0.2, 1.0, 3.7, 3.95, 4.05, 6.0, 9.8, 12.0])).map(list)
     flt = st.sampled_from(["none", "none", "address", "identifier", "identifier-absent", "both"])
     jitter = st.one_of(st.just([]), st.lists(st.sampled_from([0.0, 0.0, 0.01, 0.03, 0.05]), min_size=1, max_size=7))
-    asyncc = st.builds(lambda spas, f, t, j, s: {"k": "async", "spas": spas, "filter": f, "target": t, "jitter": j, "suspend": s},
+    asyncc = st.builds(lambda spas, f, t, j, s, again: dict({"k": "async", "spas": spas, "filter": f, "target": t, "jitter": j, "suspend": s},
+                                                            **({"again": again} if again else {})),
                        st.lists(spa, max_size=6, unique_by=lambda s: s[0]), flt, st.integers(0, 5), jitter,
-                       st.lists(st.sampled_from([0.0, 0.0, 0.3, 0.6, 1.5]), max_size=4))
+                       st.lists(st.sampled_from([0.0, 0.0, 0.3, 0.6, 1.5]), max_size=4), st.sampled_from([0, 0, 0, 1, 2, 3]))
     find = st.one_of(st.none(), st.tuples(st.just("id"), st.integers(0, 6), st.sampled_from(["str", "bytes"])).map(list), st.just(["ip"]))
     sync = st.builds(lambda seq, f: dict({"k": "sync", "seq": seq}, **({"find": f} if f else {})),
                      st.lists(st.tuples(st.integers(0, 5), st.sampled_from(NAMES)).map(list), min_size=1, max_size=10), find)
@@ -120,6 +121,27 @@ def _run_async(res, case):
             await W.sleep(1.0)
             out["late_list"] = list(loc.spas or [])
             out["alive_later"] = [t.get_name() for t in loc_tasks if not t.done()]
+            # further discoveries on the same task manager (what the manager's sequence pump does, twice per connection):
+            # each must again return a duplicate-free list with its endpoint closed and its helper tasks finished
+            for r in range(int(case.get("again", 0))):
+                loc2 = GeckoAsyncLocator(tm, handler, spa_address=addr, spa_identifier=ident)
+                n2 = len(W.transports)
+                await loc2.discover()
+                for _ in range(3):
+                    await asyncio.sleep(0)
+                alive = sorted(t.get_name() for t in tm._tasks if t.get_name().startswith("LOC:") and not t.done())
+                ids = [d.identifier for d in (loc2.spas or [])]
+                if alive:
+                    out.setdefault("again", []).append(("helper-task-survives", f"discovery #{r + 2} on the same task manager returned but {alive} keep running"))
+                if any(not t.closed for t in W.transports[n2:]):
+                    out.setdefault("again", []).append(("endpoint-open", f"discovery #{r + 2} on the same task manager returned with its endpoint open"))
+                if len(set(ids)) != len(ids):
+                    out.setdefault("again", []).append(("duplicate", f"discovery #{r + 2} lists {ids}"))
+                known = {_ident(n) for n, *_ in case["spas"]}
+                if any(i not in known for i in ids) or (ident is not None and any(i != ident.encode("latin-1") for i in ids)):
+                    out.setdefault("again", []).append(("foreign", f"discovery #{r + 2} lists {ids}, filter {ident!r}"))
+                if alive:
+                    break
         finally:
             # bounded: a helper task that swallows its cancellation must not hang the harness
             g = asyncio.ensure_future(tm.gather())
@@ -135,6 +157,8 @@ def _run_async(res, case):
         res.fail(f"C15|helper-task-survives|{names[0]}", f"discovery returned but {names} keep running (1 s later / not even cancellable)")
         if "t0" not in out:
             return
+    for what, msg in out.get("again", []):
+        res.fail(f"C15|repeat|{what}", msg)
     t0, t1 = out["t0"], out["t1"]
     dur = t1 - t0
     # two polling intervals (hello consumer, discovery loop) + the time the client's handler was suspended; every one of
